@@ -6,7 +6,7 @@ import SJ.Model.Lexical
 Driver handlers of C07 (`float_roundtrip`: decimal → float is correctly rounded).
 
 * `model` = the transcription of `de.rs` + `lexical` (`Model.Lexical.deFloatRoundtrip`), bit for bit;
-* `spec`  = the independent specification: `Spec.Ieee.roundNE64` / `Spec.Ieee32.roundNE32` of the literal's
+* `spec`  = the independent specification: `Spec.Ieee.roundNE64` / `Spec.Ieee.roundNE32` of the literal's
   exact value (`Model.Num.exact`: digits and exponent as naturals), sign kept, underflow to ±0, rejected
   iff the rounded value is not finite — evaluated on the implementation's own output.
 -/
@@ -35,24 +35,24 @@ def toF64 : NRes → Option (Option UInt64)
 
 /-- what serde's `f32` visitor does: `visit_u64(n) → n as f32`, `visit_i64`, `visit_f64(x) → x as f32` -/
 def toF32 : NRes → Option (Option UInt32)
-  | .u64 n => some (some (Spec.Ieee32.F32.ofNat n))
-  | .i64 k => some (some (Spec.Ieee32.F32.neg (Spec.Ieee32.F32.ofNat k.natAbs)))
-  | .f64 b => some (some (Spec.Ieee32.F64x.toF32 b))
+  | .u64 n => some (some (Spec.Ieee.F32.ofU64 n))
+  | .i64 k => some (some (Spec.Ieee.F32.neg (Spec.Ieee.F32.ofU64 k.natAbs)))
+  | .f64 b => some (some (Spec.Ieee.F64.toF32 b))
   | .outOfRange => some none
   | .outOfFuel => none
 
 /-- the specification, directly from the literal's exact value -/
 def spec64 (p : Parts) : Option UInt64 :=
   match exact p with
-  | .zero | .tiny => some (Spec.Ieee.signBit p.neg)
+  | .zero | .tiny => some (Spec.Ieee.F64.zero p.neg)
   | .huge => none
   | .rat n d => Spec.Ieee.roundNE64 p.neg n d
 
 def spec32 (p : Parts) : Option UInt32 :=
   match exact p with
-  | .zero | .tiny => some (Spec.Ieee32.signBit32 p.neg)
+  | .zero | .tiny => some (if p.neg then 0x80000000 else 0)
   | .huge => none
-  | .rat n d => Spec.Ieee32.roundNE32 p.neg n d
+  | .rat n d => Spec.Ieee.roundNE32 p.neg n d
 
 def natOfHex (s : String) : Option Nat :=
   s.toList.foldlM (fun acc c =>
